@@ -60,19 +60,14 @@ Proof.
   - exfalso. eapply parse_fields_np; eauto.
 Qed.
 
-(* C13, no hypothesis left: with the modelled cron parser, loading any tree never panics *)
+(* C13 with the modelled cron parser: the cron hypothesis is discharged; what remains is the one about the
+   parameter tokenizer's regular expression *)
 Theorem load_no_panic_cron :
-  forall (sig_ok : string -> bool) (tokenize : string -> list (string * string)) (sh : string -> option string)
-         (o : opts) (root : yv) (e : envt),
+  forall (sig_ok : string -> bool) (tokenize : string -> list (string * string)) (sh : string -> option string),
+  (forall s n v, In (n, v) (tokenize s) -> quoted_wf v) ->
+  forall (o : opts) (root : yv) (e : envt),
   outcome (load_tree cron_of_parse sig_ok tokenize sh o root e) <> Panic.
-Proof. intros. apply load_no_panic. exact cron_parse_panic_tz. Qed.
-
-Theorem build_no_panic_cron :
-  forall (sig_ok : string -> bool) (tokenize : string -> list (string * string)) (sh : string -> option string)
-         (o : opts) (d : definition) (base : list string),
-  no_nil d = true ->
-  forall e : envt, outcome (build cron_of_parse sig_ok tokenize sh o d base e) <> Panic.
-Proof. intros. apply build_no_panic; [exact cron_parse_panic_tz | assumption]. Qed.
+Proof. intros. apply load_no_panic; [exact cron_parse_panic_tz | assumption]. Qed.
 
 (* every schedule expression of an accepted DAG is parsed by Cron.parse *)
 Theorem build_schedules_parse_cron :
